@@ -35,6 +35,7 @@ func c18(c *Ctx) {
 	r.Rule("R18.1", "the FileMode driving the dispatch is Mode() of the FileInfo returned by os.Lstat on the root parameter; os.Stat is not called anywhere in the importer")
 	r.Rule("R18.6", "the builders the arms hand to can store what they build: codec agreement at every store site (same check as R16.7) — an empty file stored under the dag-pb prototype makes the import of a valid tree fail")
 	r.Rule("R18.7", "the link constructor stores the name it is given: the string parameter of the directory-entry constructor reaches AssignString unmodified (no sanitising, case folding or trimming inside the constructor — the importer hands it e.Name())")
+	r.Rule("R18.8", "a directory is refused as \"too deep\" only when the name hashes really run out of bits: the test that guards the bit slice of the sharded-directory builder rejects exactly offset+width > 8*len(hash) (an off-by-one refuses a valid directory whose names share all but the last hash byte)")
 	r.Rule("R18.2", "the dispatch tests IsDir(), Type()==ModeSymlink and IsRegular(); the path where all are false returns (nil link, non-nil error); symlink arm: os.Readlink(root) → symlink builder, no os.Open/ReadFile; regular arm: os.Open(root) → file builder")
 	r.Rule("R18.3", "directory arm: range over os.ReadDir(root)'s entries; every cycle of the loop passes the recursive import of path.Join(root, e.Name()), the link constructor named e.Name() with that result's link and size, and the append to the list that is built")
 	r.Rule("R18.5", "the importer and the builders it calls keep no state between imports: no package-level variable of the builder packages is written outside package initialisation (every import writes all of its blocks to the store it was given)")
@@ -258,6 +259,7 @@ func c18(c *Ctx) {
 	c.checkNoBuilderGlobals("R18.5")
 	c.checkStoreCodec("R18.6")
 	c.checkEntryNameVerbatim()
+	c.checkDepthBoundExact()
 	// ---- R18.3
 	if b := arms["dir"]; b != nil {
 		done := false
@@ -708,4 +710,78 @@ func (c *Ctx) checkEntryNameVerbatim() {
 		}
 	}
 	r.Floor("R18.7", n, 1)
+}
+
+// checkDepthBoundExact implements R18.8.
+func (c *Ctx) checkDepthBoundExact() {
+	r := c.R
+	n := 0
+	for _, fn := range c.G.Funcs() {
+		rel, ok := c.P.PkgOf(fn)
+		if !ok || rel != "data/builder" || fn.Synthetic != "" || core.ErrResultIndex(fn.Signature) < 0 {
+			continue
+		}
+		for _, b := range fn.Blocks {
+			iff := core.BlockIf(b)
+			if iff == nil {
+				continue
+			}
+			bo, ok := iff.Cond.(*ssa.BinOp)
+			if !ok {
+				continue
+			}
+			isBits := func(v ssa.Value) bool {
+				m, ok := core.Unconv(v).(*ssa.BinOp)
+				if !ok || m.Op != token.MUL {
+					return false
+				}
+				_, l1 := lenOf(m.X)
+				_, l2 := lenOf(m.Y)
+				k1, c1 := core.ConstInt(m.Y)
+				k2, c2 := core.ConstInt(m.X)
+				return (l1 && c1 && k1 == 8) || (l2 && c2 && k2 == 8)
+			}
+			isSum := func(v ssa.Value) bool {
+				a, ok := core.Unconv(v).(*ssa.BinOp)
+				if !ok || a.Op != token.ADD {
+					return false
+				}
+				_, p1 := a.X.(*ssa.Parameter)
+				_, p2 := a.Y.(*ssa.Parameter)
+				return p1 && p2
+			}
+			var op token.Token
+			switch {
+			case isSum(bo.X) && isBits(bo.Y):
+				op = bo.Op
+			case isBits(bo.X) && isSum(bo.Y):
+				switch bo.Op {
+				case token.LSS:
+					op = token.GTR
+				case token.GTR:
+					op = token.LSS
+				case token.LEQ:
+					op = token.GEQ
+				case token.GEQ:
+					op = token.LEQ
+				default:
+					op = bo.Op
+				}
+			default:
+				continue
+			}
+			n++
+			key := core.FuncName(fn) + "/bit-budget-exact"
+			// which edge is the rejection?
+			rejectOnTrue := false
+			if t := b.Succs[0]; len(t.Instrs) > 0 {
+				if ret, ok := t.Instrs[len(t.Instrs)-1].(*ssa.Return); ok && !core.IsNilConst(core.ResolvedResults(ret)[core.ErrResultIndex(fn.Signature)]) {
+					rejectOnTrue = true
+				}
+			}
+			exact := (rejectOnTrue && op == token.GTR) || (!rejectOnTrue && op == token.LEQ)
+			r.Check(exact, "R18.8", key, c.P.Pos(bo.Pos()), "rejects exactly offset+width > 8*len(hash)", fmt.Sprintf("the bit-budget test uses %s on offset+width vs 8*len(hash): a request that exactly exhausts the hash is refused (or an over-long one accepted)", op))
+		}
+	}
+	r.Floor("R18.8", n, 1)
 }
